@@ -12,6 +12,7 @@ package p08
 import (
 	"bytes"
 	"fmt"
+	"os"
 	"sort"
 	"strings"
 	"testing"
@@ -451,6 +452,13 @@ func crashPoint(c *pbt.C, e *examined, k int, tornAt int) {
 		at = "before"
 	case got.equal(e.after):
 		at = "after"
+	}
+	if os.Getenv("VERIF_C08_DEBUG") != "" {
+		what := at
+		if at == "" {
+			what = "NEITHER: " + tornKind(got, e.before, e.after)
+		}
+		fmt.Fprintf(os.Stderr, "C08DEBUG %s %s -> %s (frontier pointer %s)\n", e.kind, where, what, got.get("frontier-pointer"))
 	}
 	if at == "" {
 		kind := tornKind(got, e.before, e.after)
